@@ -32,6 +32,24 @@ class Vals(object):
         self.data = vals
 
 
+STRIDES = {}      # property -> values per particle (set per unit)
+_STRIDED = re.compile(r"d_(\w+)\[\s*(?:d_idx\s*\*\s*(\d+)|(\d+)\s*\*\s*"
+                      r"d_idx)")
+
+
+def prop_strides(stepper_cls):
+    """strided properties are recognised by their indexing d_p[d_idx*K+..]"""
+    out = {}
+    try:
+        src = inspect.getsource(stepper_cls)
+    except (OSError, TypeError):
+        return out
+    for m in _STRIDED.finditer(src):
+        out[m.group(1)] = max(out.get(m.group(1), 1),
+                              int(m.group(2) or m.group(3)))
+    return out
+
+
 class ArrWrapper(object):
     def __init__(self, name, index, nreal, nghost, props, tag):
         self.name, self.index = name, index
@@ -39,7 +57,8 @@ class ArrWrapper(object):
         self.array = "array:" + name
         for p in props:
             setattr(self, p, Vals([real("%s_%s_%d" % (name, p, i))
-                                   for i in range(nreal + nghost)]))
+                                   for i in range((nreal + nghost) *
+                                                  STRIDES.get(p, 1))]))
         self.props = list(props)
 
     def size(self, real=False):
@@ -297,6 +316,10 @@ def unit_pair(imod, icls, smod, scls, two=False):
         out["stats"] = stats.as_dict()
         return out
     smodule = importlib.import_module(smod)
+    STRIDES.clear()
+    STRIDES.update(prop_strides(S_))
+    if STRIDES:
+        out["strides"] = dict(STRIDES)
     ncex = [0]
 
     def run(c):
